@@ -315,6 +315,26 @@ func (f *FibStrategyHashTable) ClearNextHopsEnc(name enc.Name) {
 	}
 }
 
+// ReplaceNextHopsEnc replaces all nexthops of the specified prefix in one step.
+func (f *FibStrategyHashTable) ReplaceNextHopsEnc(name enc.Name, nexthops map[uint64]uint64) {
+	f.fibStrategyRWMutex.Lock()
+	defer f.fibStrategyRWMutex.Unlock()
+
+	if len(nexthops) == 0 {
+		if entry, ok := f.realTable[name.Hash()]; ok {
+			entry.nexthops = make([]*FibNextHopEntry, 0)
+			f.pruneTables(entry)
+		}
+		return
+	}
+
+	realEntry := f.insertEntryEnc(name)
+	realEntry.nexthops = make([]*FibNextHopEntry, 0, len(nexthops))
+	for nexthop, cost := range nexthops {
+		realEntry.nexthops = append(realEntry.nexthops, &FibNextHopEntry{Nexthop: nexthop, Cost: cost})
+	}
+}
+
 // RemoveNextHop removes the specified nexthop entry from the specified prefix
 
 func (f *FibStrategyHashTable) RemoveNextHopEnc(name enc.Name, nexthop uint64) {
